@@ -161,7 +161,16 @@ except Exception as _e:
     print("REPLAY raised", type(_e).__name__, _e)
     sys.exit(1)
 print("REPLAY returned", repr(_r))
-sys.exit(0 if _r == "" or _r is True or _r is None else 1)
+if _r == "" or _r is True or _r is None:
+    sys.exit(0)
+_pub = getattr(_m, "public_" + {ob.func!r}, None)
+if _pub is not None:
+    # the same scenario through pycaption's public API (no stubs): must fail as well
+    _call = {call!r}
+    _r2 = eval("_pub" + _call[_call.index("("):], vars(_m), {{"_pub": _pub}})
+    print("PUBLIC-API REPLAY returned", repr(_r2))
+    sys.exit(0 if _r2 == "" else 1)
+sys.exit(1)
 '''
     with open(path, "w") as f:
         f.write(code)
